@@ -55,7 +55,7 @@ pub struct SchedReport {
 impl Sched {
     pub fn new(n: usize, schedule: &Schedule, budget: u64) -> Sched {
         let policy = match schedule {
-            Schedule::Solo => Policy::Explicit {
+            Schedule::Solo | Schedule::Free => Policy::Explicit {
                 switches: vec![],
                 idx: 0,
             },
